@@ -548,7 +548,7 @@ func doWithWatchdog(w *drv.World, r drv.Req) (drv.Resp, bool) {
 }
 
 func runC09(c *engine.Ctx) {
-	c.Rule = "case = (backend/options, reachable start state, base request of one of 30 routes (two of them announced with Expect: 100-continue), <= k deviations where a deviation sets one slot (method, path shape, query parameter, raw query text, header, declared length, body) to a value of the finite menu); oracle: no panic, the call returns, response is a success or an error status whose body is empty or an <Error><Code> document with the status documented for that code, and afterwards a canary sequence (put/get/list/delete on the same and on another bucket) behaves and untouched data is unchanged; plus, on the fs backends, every route x state with exactly one failing storage operation at every position (no panic, returns, well-formed error, canary afterwards); distinct_nontrivial = distinct (status, code) outcomes x route"
+	c.Rule = "case = (backend/options, reachable start state, base request of one of 30 routes (two of them announced with Expect: 100-continue), <= k deviations where a deviation sets one slot (method, path shape, query parameter, raw query text, header, declared length, body) to a value of the finite menu); oracle: no panic, the call returns, response is a success or an error status whose body is empty or an <Error><Code> document with the status documented for that code, and afterwards a canary sequence (put/get/list/delete on the same and on another bucket, a part added to each listed pending upload) behaves and untouched data is unchanged; plus, on the fs backends, every route x state with exactly one failing storage operation at every position (no panic, returns, well-formed error, canary afterwards); distinct_nontrivial = distinct (status, code) outcomes x route"
 	c.Assumptions = append(c.Assumptions, "deviation bound k=1 on every route and state (quick) / k=2 on the routing-relevant and route-specific slots (thorough, and quick on the memory backend's stateful routes)", "a 60 s watchdog per request stands in for 'never blocks' (normal latency is ~10 us)")
 	routes := c09Routes()
 	menu := c09Menu()
@@ -800,6 +800,28 @@ func c09Canary(w *drv.World, pl c09Plan, untouchedBefore string) (string, string
 		}
 		if dr.Status != 204 {
 			return "delete", fmt.Sprintf("DELETE canary in %s answered %s", b, dr.Short())
+		}
+	}
+	// pending uploads stay usable: a part can be added to each (whatever the request was, it
+	// has returned, so nothing of an upload may still be held)
+	ur, f := do(drv.Req{Method: "GET", Path: "/aaa", Query: "uploads", Host: host})
+	if f != "" {
+		return f, "list of pending uploads"
+	}
+	if ur.Status == 200 {
+		probed := 0
+		for _, u := range drv.ParseUploads(ur).Uploads {
+			if probed == 2 || u.Key == "" || strings.HasSuffix(u.Key, "/") || strings.Trim(u.Key, "abcdefghijklmnopqrstuvwxyz0123456789/") != "" || strings.Contains(u.Key, "//") {
+				continue
+			}
+			probed++
+			pr, f := do(drv.Req{Method: "PUT", Path: "/aaa/" + u.Key, Query: drv.Q("uploadId", u.ID, "partNumber", "9999"), Body: []byte("canary-part"), Host: host})
+			if f != "" {
+				return f, "upload of a part to the pending upload " + u.ID + " of " + strconv.Quote(u.Key)
+			}
+			if pr.Status != 200 {
+				return "upload-part", fmt.Sprintf("a part for the listed pending upload %s of %q answered %s", u.ID, u.Key, pr.Short())
+			}
 		}
 	}
 	if untouchedBefore != "" {
